@@ -1391,9 +1391,9 @@ def moved_instance(gen, info, B, mode, rng):
         setattr(b, fb, child)
     except Exception as e:
         raise CannotConstruct(f'{B.__name__}.{fb} refuses the object: {type(e).__name__}')
-    got = getattr(b, fb, None)
-    if got is not child:
-        raise CannotConstruct(f'{B.__name__}.{fb} did not take the object over as it is')
+    if getattr(b, fb, None) is None:
+        raise CannotConstruct(f'{B.__name__}.{fb} did not accept the object')
+    # (the receiver may keep the object itself or re-create it from its entries - either way it now holds the value)
     return b
 
 
@@ -1403,7 +1403,7 @@ def field_type_key(d):
     import tables_xml
     if isinstance(d, D.ParametersDescriptor):
         return ('params',)
-    if isinstance(d, (D.SerializableDescriptor, D.UnitVectorDescriptor)):
+    if isinstance(d, D.SerializableDescriptor):      # not UnitVectorDescriptor: it normalises what it is given (magnitudes are the generator's business)
         return ('obj', tables_xml.qual(d.the_type))
     if isinstance(d, D.SerializableArrayDescriptor):
         return ('arr', tables_xml.qual(d.child_type), d.array_extension.__name__, d.child_tag, d.minimum_length, d.maximum_length)
@@ -1424,6 +1424,21 @@ def moved_plan(info, rng, tier):
             if k is not None:
                 owners.setdefault(k, []).append((q, f_, (fam, c._child_xml_ns_key.get(f_))))
     out = []
+    # FORCED in every run: parameter collections of the same field name and element name (the receiver keeps the very object)
+    # handed between owners whose namespace key for that field differs (SICD 'default' <-> SIDD 'sicommon' ...), both directions
+    forced = 0
+    by_name = {}
+    for q, f_, ctx in owners.get(('params',), []):
+        d_ = inspect.getattr_static(classes[q], f_, None)
+        by_name.setdefault((f_, d_.child_tag), []).append((q, f_, ctx))
+    for grp in by_name.values():
+        for a in grp:
+            for b in grp:
+                if a[0] != b[0] and a[2][1] != b[2][1]:
+                    for _ in range(1 if tier == 'quick' else 5):
+                        out.append((b[0], ('moved', a[0], a[1], b[1]), rng.getrandbits(48)))
+                        forced += 1
+    info['moved_forced_same_name_params'] = forced
     per_key = 4 if tier == 'quick' else 40
     for k in sorted(owners, key=str):
         os_ = owners[k]
@@ -1536,6 +1551,7 @@ def run(tier):
             hk = mname + ('+edge-strings' if which == 1 else '+value-outside-enumeration' if which == 3 else '')
             if which == 4:
                 stats['moved_children'] = stats.get('moved_children', 0) + 1
+                stats['moved_forced_same_name_params'] = info.get('moved_forced_same_name_params', 0)
             mode_hist[hk] = mode_hist.get(hk, 0) + 1
             classes_seen.add(q)
         is_root = q in roots
